@@ -544,7 +544,7 @@ func (e *Eng) havocTarget(fr *Frame, st *State, t types.Type, v Val, instr ssa.I
 			return
 		}
 		nv := e.freshVal(x.Elem, "ext")
-		e.assume(st, wf(x.Elem, nv))
+		e.assume(st, e.wf(x.Elem, nv))
 		e.checkFrameStore(fr, st, x, instr)
 		e.storePtr(fr, st, x, x.Elem, nv)
 	case *SliceV:
@@ -574,14 +574,14 @@ func (e *Eng) freshResults(fr *Frame, st *State, sig *types.Signature, hint stri
 		return nil
 	case 1:
 		v := e.freshVal(res.At(0).Type(), "r_"+hint)
-		e.assume(st, wf(res.At(0).Type(), v))
+		e.assume(st, e.wf(res.At(0).Type(), v))
 		e.assumeValAllocated(fr, st, res.At(0).Type(), v)
 		return v
 	}
 	tv := &TupleV{}
 	for i := 0; i < res.Len(); i++ {
 		v := e.freshVal(res.At(i).Type(), fmt.Sprintf("r_%s_%d", hint, i))
-		e.assume(st, wf(res.At(i).Type(), v))
+		e.assume(st, e.wf(res.At(i).Type(), v))
 		e.assumeValAllocated(fr, st, res.At(i).Type(), v)
 		tv.Elems = append(tv.Elems, v)
 	}
@@ -622,6 +622,8 @@ func (e *Eng) specCall(fr *Frame, st *State, fn *ssa.Function, args []Val, argTa
 	case name == "spec_fresh":
 		r := ghostKey(args[0])
 		return tOr(tEq(r, null), e.freshAtEntry(r)), false
+	case name == "spec_sameref":
+		return tEq(ghostKey(args[0]), ghostKey(args[1])), false
 	case name == "spec_allocated":
 		r := ghostKey(args[0])
 		return tOr(tEq(r, null), e.allocatedIn(st, r)), false
@@ -750,7 +752,7 @@ func (e *Eng) applyContract(fr *Frame, st *State, instr ssa.Instruction, fc *Fun
 	res := sig.Results()
 	for i := 0; i < res.Len(); i++ {
 		v := e.freshVal(res.At(i).Type(), fmt.Sprintf("r_%s_%d", sanitizeHint(disp), i))
-		e.assume(st, wf(res.At(i).Type(), v))
+		e.assume(st, e.wf(res.At(i).Type(), v))
 		e.assumeValAllocated(fr, st, res.At(i).Type(), v)
 		results = append(results, v)
 	}
@@ -811,6 +813,10 @@ func (e *Eng) evalModSpec(fc *FuncContract, m *ModSpec, args []Val, st *State) [
 	iv := pr.captured[0].(*IfaceV)
 	obj := iv.Boxed
 	ot := iv.BoxedT
+	if obj == nil {
+		// the expression itself is interface-typed (no boxing happened)
+		obj = iv
+	}
 	if inner, ok := obj.(*IfaceV); ok {
 		// interface-typed expression: use its dynamic value reference
 		switch m.Kind {
@@ -885,7 +891,7 @@ func (e *Eng) applyMod(fr *Frame, st, old *State, instr ssa.Instruction, fc *Fun
 			e.havocAll(st, disp)
 		case "field", "deref":
 			nv := e.freshVal(t.typ, "mod")
-			e.assume(st, wf(t.typ, nv))
+			e.assume(st, e.wf(t.typ, nv))
 			e.assumeValAllocated(fr, st, t.typ, nv)
 			e.storePtr(fr, st, t.ptr, t.typ, nv)
 		case "elems":
